@@ -51,6 +51,10 @@ var c06Forms = []c06Form{
 	{"N", "function", "'x'.upper()", "'x'.upper()"},
 	{"M", "variable", "%ints", "%ints"},
 	{"M", "variable", "%tf", "%tf"},
+	{"M", "variable", "%ft", "%ft"},
+	{"M", "variable", "%ff", "%ff"},
+	{"M", "computed", "Patient.name.select(given.count() > 1)", "%names.select(given.count() > 1)"},
+	{"M", "computed", "Patient.name.select(family.exists().not())", "%names.select(family.exists().not())"},
 	{"M", "fhir-element", "Patient.name", "name"},
 	{"M", "fhir-element", "Patient.name.given", "name.given"},
 	{"M", "function", "'ab'.toChars()", "'ab'.toChars()"},
@@ -64,6 +68,8 @@ func c06Vars() map[string]any {
 	v["fbt"] = &dtpb.Boolean{Value: true}
 	v["fbf"] = &dtpb.Boolean{Value: false}
 	v["tf"] = system.Collection{system.Boolean(true), system.Boolean(false)}
+	v["ft"] = system.Collection{system.Boolean(false), system.Boolean(true)}
+	v["ff"] = system.Collection{system.Boolean(false), system.Boolean(false)}
 	return v
 }
 
